@@ -156,3 +156,49 @@ func vxH_C09_iterProgram() {
 	}
 	it.Close()
 }
+
+func init() { vxRegister("vxH_C09_seekAfterSkip", vxH_C09_seekAfterSkip) }
+
+// vxH_C09_seekAfterSkip: a one-operation newer segment over a
+// two-operation older segment (or lower level), unbounded iterator, one
+// SeekTo(x) - the shape in which the start position may have skipped a
+// tombstone and exhausted a cursor before the seek.
+func vxH_C09_seekAfterSkip() {
+	kl, vl := 1, 1
+	opts := &CollectionOptions{}
+	top := vxNewEnts(1, kl, vl, vxOpsSetDel)
+	bot := vxNewEnts(2, kl, vl, vxOpsSetDel)
+	ss := &segmentStack{options: opts, refs: 1}
+	if vxChoose(2) == 0 {
+		ss.a = []Segment{vxSegOf(bot), vxSegOf(top)}
+	} else {
+		ll := &segmentStack{options: opts, refs: 1, a: []Segment{vxSegOf(bot)}}
+		ss.a = []Segment{vxSegOf(top)}
+		ss.lowerLevelSnapshot = NewSnapshotWrapper(ll, nil)
+	}
+	layers := [][]vxEnt{bot, top}
+	it, err := ss.StartIterator(nil, nil, IteratorOptions{})
+	vxAssert("start-ok", err == nil)
+	X := vxNewKey(kl)
+	serr := it.SeekTo(vxKeyBytes(X))
+	vxAssert("seek-err", serr == nil || serr == ErrIteratorDone)
+	k, v, cerr := it.Current()
+	if cerr == ErrIteratorDone {
+		ok := true
+		for _, ents := range layers {
+			for _, e := range ents {
+				ok = vxAnd(ok, vxImplies(vxKeyLE(X, e.k), vxNot(vxRefGet(e.k, layers...).live)))
+			}
+		}
+		vxAssert("seek-done-means-exhausted", ok)
+		return
+	}
+	vxAssert("seek-current-ok", cerr == nil)
+	vxObserveBytes("seek-key", k)
+	ck := vxKeyOf(k)
+	ref := vxRefGet(ck, layers...)
+	vxAssert("seek-at-or-after", vxKeyLE(X, ck))
+	vxAssert("seek-live-with-value", vxAnd(ref.live, vxValIs(v, ref.v)))
+	vxAssert("seek-nothing-skipped", vxNoLiveBetween(false, X, true, ck, func(k vxKey) bool { return vxKeyLE(X, k) }, layers...))
+	it.Close()
+}
